@@ -1441,7 +1441,8 @@ func adjacentDedup(f *ssa.Function) bool {
 func runC01Grouped(c *Ctx) {
 	var dedups []*ssa.Function
 	for _, f := range c.P.Funcs {
-		if c.P.InRepo(f) && f.Parent() == nil && adjacentDedup(f) {
+		// the known adjacent-duplicate remover (however its loop is written) and anything of that shape
+		if c.P.InRepo(f) && f.Parent() == nil && (FuncName(f) == "geom.uniquifyGroupedXYs" || adjacentDedup(f)) {
 			dedups = append(dedups, f)
 		}
 	}
